@@ -1,5 +1,7 @@
 package main
 
+import "strings"
+
 func init() {
 	register("C20", &PropDef{
 		Explain: "Structural conditions of 'observability callbacks are balanced, nested and truthful': (R1) bus-side pairing on every path incl. panic edges — OnPublishStart/OnPublishComplete once each per publish when observability is set (never when nil), OnHandlerStart once before each invocation and OnHandlerComplete once on every exit of the dispatch function including the recovered-panic exit, with an error that is non-nil exactly on the recovered branch and not under the sequential lock; in the persist function #OnPersistStart = #OnPersistComplete = #Append on every path, Complete given Append's error outside the store lock; (R2) context threading — each complete callback's context originates from its start callback's result; handler-start, persist-start and Append contexts descend from the publish context through context.With* only (never Background/TODO/WithoutCancel); (R3) the OpenTelemetry implementation — every path of each On…Start starts exactly one span in a context derived from its parameter, returns the context Start returned and increments exactly its own counter by the constant 1; every path of each On…Complete ends the span of the given context exactly once, records its duration histogram once and increments its error counter exactly once iff err != nil. Not decided: SDK behaviour.",
@@ -13,6 +15,14 @@ func init() {
 			}
 			runFrames(c, p, R, map[string]string{"C20.R1": "C20.R1"})
 			runPersist(c, p, R, map[string]string{"C20.R1": "C20.R1"})
+			// "one handler start/complete per handler invocation": the dispatch function, which
+			// brackets the invocation with OnHandlerStart/OnHandlerComplete, does invoke the
+			// handler on every path it returns from (no skip inside the observed region)
+			if c.Borrow("C20.R1", func(k string) bool { return strings.Contains(k, "invokes-handler") }, func(c2 *Ctx) {
+				runDelivery(c2, p, R, deliveryRuleOf, map[string]string{"C04.R2": "X"})
+			}) == 0 {
+				c.Discharge("C20.R1", "dispatch-fn/invokes-handler", "", "every return of the dispatch function follows an invocation of the handler (or the reflective kind/arity guard)")
+			}
 			c.Floor("C20.R1", "observability call sites in the dispatch path", c.Stats["obs_call_sites"], 4)
 			checkObsThreading(c, p, R, "C20.R2")
 			checkHandlerCtxProvenance20(c, p, R)
